@@ -98,7 +98,7 @@ Proof.
   - exists []. rewrite app_nil_r. split; reflexivity.
   - cbn [wf_from] in HW. apply andb_true_iff in HW. destruct HW as [HW W3].
     apply andb_true_iff in HW. destruct HW as [W1 W2].
-    destruct (c_line_wf n out cs nl k W1) as [l [E1 E2]].
+    destruct (c_line_wf n out cs nl k W1 W2) as [l [E1 E2]].
     cbn [c_lines_loop]. rewrite E1.
     destruct (IH (S n) (out ++ l) _ W3) as [L' [E3 E4]].
     exists (l ++ L'). rewrite E3, app_assoc. split; [reflexivity|].
@@ -170,7 +170,7 @@ Proof.
   unfold sline in *. fold (sfold (SBol k, mU) cs) in *.
   destruct (fnb cs) as [kh|] eqn:F; [destruct (is_hashk kh) eqn:H|].
   - (* directive line *)
-    destruct HC as [txt HC]. subst l. rewrite HS. cbn [fst seol classify].
+    destruct HC as [txt HC]. subst l. destruct HS as [d HS]. rewrite HS. cbn [fst seol classify].
     cbn [f_lines_loop f_line c_cat].
     eexists. split; [reflexivity|].
     destruct (tag_fflush (fl_cur s) (fl_lines s) (fl_out s) I3 I4) as [T1 T2].
